@@ -162,6 +162,7 @@ def mutate(ctx, config, rng, sb, S, tag):
         elif kind == 1:
             nu = sj.popcount(sb[2:2 + bl]); j = rng.randrange(nu); o = 2 + bl + 32 + 32 * j
             vcase(ctx, config, sb[:o] + b32(rng.choice((0, n, n + 1, 2**256 - 1))) + sb[o + 32:], S.in_pts, S.in_obj, S.out_pt, S.out_obj, tag + ":scalar_zero_or_ge_n")
+            vcase(ctx, config, sb[:o] + b32((n - I(sb[o:o + 32])) % n) + sb[o + 32:], S.in_pts, S.in_obj, S.out_pt, S.out_obj, tag + ":scalar_negated")
         elif kind == 2:
             vcase(ctx, config, sb + b'\x00', S.in_pts, S.in_obj, S.out_pt, S.out_obj, tag + ":len+1"); vcase(ctx, config, sb[:-1], S.in_pts, S.in_obj, S.out_pt, S.out_obj, tag + ":len-1")
         elif kind == 3:
